@@ -4,16 +4,26 @@ use crate::report::{self, Report, Tier};
 
 pub mod c01;
 pub mod c02;
+pub mod c03;
 pub mod c08;
 pub mod c09;
+pub mod c13;
+pub mod c14;
+pub mod c15;
+pub mod c16;
 pub mod ackworld;
 
 pub fn run(prop: &str, tier: Tier) -> i32 {
     match prop {
         "C01" => c01::run(tier),
         "C02" => c02::run(tier),
+        "C03" => c03::run(tier),
         "C08" => c08::run(tier),
         "C09" => c09::run(tier),
+        "C13" => c13::run(tier),
+        "C14" => c14::run(tier),
+        "C15" => c15::run(tier),
+        "C16" => c16::run(tier),
         _ => {
             eprintln!("no check registered for {}", prop);
             2
@@ -32,8 +42,13 @@ pub fn replay(prop: &str, path: &str) -> i32 {
     match prop {
         "C01" => c01::replay(&j),
         "C02" => c02::replay(&j),
+        "C03" => c03::replay(&j),
         "C08" => c08::replay(&j),
         "C09" => c09::replay(&j),
+        "C13" => c13::replay(&j),
+        "C14" => c14::replay(&j),
+        "C15" => c15::replay(&j),
+        "C16" => c16::replay(&j),
         _ => {
             eprintln!("no replay registered for {}", prop);
             2
@@ -115,4 +130,10 @@ pub fn replay_link<F: Fn() -> Box<dyn Probe> + Sync>(scenarios: &[LinkScenario<F
             }
         }
     }
+}
+
+/// C13 (d): placeholder until the netcode world is registered
+pub fn netcode_sizes(_rep: &mut Report, _tier: Tier) {}
+pub fn netcode_sizes_replay(_j: &crate::json::J) -> i32 {
+    2
 }
